@@ -22,6 +22,7 @@ pub mod c16;
 pub mod c17;
 pub mod c18;
 pub mod c19;
+pub mod gossipnet;
 pub mod util;
 
 pub fn dispatch(id: &str, args: &Args) -> Option<Report> {
@@ -45,6 +46,13 @@ pub fn dispatch(id: &str, args: &Args) -> Option<Report> {
         "C17" => c17::run(args),
         "C18" => c18::run(args),
         "C19" => c19::run(args),
+        "GNET" => {
+            let o = gossipnet::run_fetch(args.seed, &|_| true);
+            println!("fetch: cases {} lies {} fetched {} viol {:#?} machinery {:?}", o.cases, o.lies_told, o.blocks_fetched, o.viol, o.machinery);
+            let d = gossipnet::run_dial(args.seed);
+            println!("dial: cases {} dials {} viol {:#?} machinery {:?}", d.cases, d.dials_observed, d.viol, d.machinery);
+            std::process::exit(0)
+        }
         _ => return None,
     })
 }
